@@ -940,4 +940,50 @@ theorem Kids.run_lay : ∀ kids : Kids, KidsOK kids
   | .cons .next p rest => next_case p rest (Prog.run_lay p) (Kids.run_lay rest)
 end
 
+
+/-! ## reading the tree back, and the whole builder -/
+
+theorem extract_of_rep (s : BState) : ∀ (t : Sel) (par fuel : Nat), RepT s par t → t.ids.length ≤ fuel →
+    extractFrom s.nodes fuel t.id = some t
+  | .leaf i b cs, par, 0, _, hf => by simp [Sel.ids] at hf
+  | .leaf i b cs, par, fuel + 1, hr, _ => by
+    simp only [RepT, BState.node] at hr
+    simp only [extractFrom, Sel.id, hr.1, hr.2.1, hr.2.2.1]
+  | .node k i l r, par, 0, _, hf => by simp [Sel.ids] at hf
+  | .node k i l r, par, fuel + 1, hr, hf => by
+    simp only [RepT] at hr
+    obtain ⟨h1, h2, h3, _, h5, h6⟩ := hr
+    simp only [Sel.ids, List.length_cons, List.length_append] at hf
+    have el := extract_of_rep s l i fuel h5 (by omega)
+    have er := extract_of_rep s r i fuel h6 (by omega)
+    simp only [BState.node] at h1 h2 h3
+    show extractFrom s.nodes (fuel + 1) i = _
+    cases k <;> simp only [SK.toNK] at h1 <;> simp only [extractFrom, h1, h2, h3, el, er]
+
+theorem init_enter (b : Nat) : (BState.init b).step Quirks.today Op.enterQuery =
+    some { BState.init b with stack := [2], cachedRoot := some 2 } := by
+  simp [BState.step, BState.conditionsRoot, BState.init, BState.condLoop, BState.rootOf, BState.node]
+
+theorem init_inv (b : Nat) :
+    Inv { BState.init b with stack := [2], cachedRoot := some 2 } (plug ([] ++ []) (.leaf 2 b [])) := by
+  refine ⟨?_, ?_, ?_, ?_, ?_, ?_, ?_, ?_⟩ <;>
+    simp [plug, RepT, BState.init, BState.node, Sel.id, Sel.ids]
+
+/-- **the builder, for every program**: the selector tree `build Quirks.today p` leaves behind is `p.layout`,
+node identities included; and every node of it is its own object -/
+theorem build_today_tree (p : Prog) :
+    (build Quirks.today p).bind BState.tree = some p.layout ∧ p.layout.ids.Nodup := by
+  obtain ⟨s', e, hi, _, hst, _⟩ := Prog.run_lay p _ [] [] 2 [] (init_inv p.blk) rfl (by simp) trivial
+  have hi' : Inv s' p.layout := by
+    simpa [plug, Prog.layout, Prog.layScope, BState.init] using hi
+  refine ⟨?_, hi'.nodup⟩
+  have e4 := exit_run s' 2 [] hst
+  simp only [build, BState.run, init_enter]
+  rw [run_app, e]
+  simp only [Option.bind_some, BState.run, e4, BState.tree]
+  have := hi'.top
+  simp only [BState.node] at this
+  simp only [BState.node, this]
+  exact extract_of_rep s' p.layout 1 _ hi'.rep (by have := hi'.len; show _ ≤ s'.nodes.length + 1; omega)
+
 end KrroodVerif.Rdr
